@@ -85,12 +85,15 @@ type verifConfig struct {
 	seekable bool
 }
 
+// verifConcreteStrings are the string payloads of non-symbolic profiles.
+var verifConcreteStrings = []string{"a(b"}
+
 func verifPayload(symbolic bool) Object {
 	var s String
 	if symbolic {
 		s = String(verifrt.Bytes("payload", 1+verifrt.Tier()))
 	} else {
-		s = String("a(b")
+		s = String(verifConcreteStrings[verifrt.Choice("paystr", len(verifConcreteStrings))])
 	}
 	switch verifrt.Choice("objkind", 5) {
 	case 0:
@@ -196,6 +199,9 @@ func verifFilters(p verifProfile) (fs []Filter, symbolicOK bool, rows int) {
 // verifProduce runs a solver-chosen write program and returns the document.
 func verifProduce(p verifProfile) *verifDoc {
 	verifrt.Unwind(4000)
+	if p.password != "" {
+		verifrt.Unwind(40000) // the revision 6 password hash loops over 64 copies of its input
+	}
 	doc := &verifDoc{}
 	if len(p.configs) > 0 {
 		c := p.configs[verifrt.Choice("config", len(p.configs))]
